@@ -9,7 +9,7 @@ from ..absint import Evaluator, Unsupported
 from ..flow import show, walk_term
 from ..model import fold_const
 from ..report import ob_ok, ob_fail, ob_undecided
-from .common import is_call, method_call, edge_attr, need, strip_wrappers, strip_not, if_arms, aug_like, call_arg, enclosing_loops
+from .common import is_call, method_call, edge_attr, need, strip_wrappers, strip_not, if_arms, aug_like, call_arg, enclosing_loops, resolve_ast
 from . import tables
 
 MAX_PATHS = 20000
@@ -536,9 +536,25 @@ def emit_write_graph(repo, tier="quick"):
             if isinstance(t0, ast.Compare) and isinstance(t0.ops[0], (ast.NotIn, ast.In)):
                 NEW_test = sub
                 break
+    none_form = False
+    none_src_is_pop = False
+    if NEW_test is None:
+        # marker = table.pop(idx, None) / table.get(idx);  if marker is None: <new> else: <closing>
+        for sub in ast.walk(rl):
+            if isinstance(sub, ast.If):
+                t0, _ = strip_not(sub.test, True)
+                if isinstance(t0, ast.Compare) and len(t0.ops) == 1 and isinstance(t0.ops[0], (ast.Is, ast.IsNot)) and isinstance(t0.left, ast.Name) and \
+                        isinstance(t0.comparators[0], ast.Constant) and t0.comparators[0].value is None and id(t0.left) in cfg.owner:
+                    src_ = resolve_ast(fl, t0.left, cfg.owner[id(t0.left)])[0]
+                    if isinstance(src_, ast.Call) and isinstance(src_.func, ast.Attribute) and src_.func.attr in ("pop", "get") and \
+                            (len(src_.args) == 1 or (len(src_.args) == 2 and isinstance(src_.args[1], ast.Constant) and src_.args[1].value is None)):
+                        NEW_test = sub
+                        none_form = True
+                        none_src_is_pop = src_.func.attr == "pop"
+                        break
     need(NEW_test is not None, "cannot find the new-marker / closing-marker split in the ring loop", fi, rl)
     NEW_inner, NEW_tarm, NEW_farm = if_arms(NEW_test)
-    new_is_true_arm = isinstance(NEW_inner.ops[0], ast.NotIn)
+    new_is_true_arm = isinstance(NEW_inner.ops[0], (ast.NotIn, ast.Is)) if none_form else isinstance(NEW_inner.ops[0], ast.NotIn)
 
     letters = {"SYMtree": "S", "SYMring": "Y", "SYMunknown": "U", "OPEN": "(", "CLOSE": ")", "NODE": "N", "DESC": "D", "MARK": "M", "RINGS": "R",
                "CONST": "c", "RESET": "!", "BAD": "?"}
@@ -755,6 +771,23 @@ def emit_write_graph(repo, tier="quick"):
         uses_values = any((mm + ".values()") in src for mm in marker_maps)
         c = is_call(t, "_get_ring_marker")
         good = uses_values and (c is None or (c[0] and method_call(c[0][0], "values") is not None))
+        if not good:
+            # ... or a set kept next to the map: the marker is added where the map gets it and removed where the map loses it
+            mname_ = alloc.targets[0].id
+            used_ = {x.id for x in ast.walk(alloc.value) if isinstance(x, ast.Name)}
+            other_arm = NEW_farm if new_is_true_arm else NEW_tarm
+            for cand in sorted(used_):
+                calls_on = [x for x in ast.walk(fi.node) if isinstance(x, ast.Call) and isinstance(x.func, ast.Attribute) and isinstance(x.func.value, ast.Name)
+                            and x.func.value.id == cand]
+                adds_ = [x for st in new_arm for x in ast.walk(st) if x in calls_on and x.func.attr == "add" and len(x.args) == 1 and
+                         isinstance(x.args[0], ast.Name) and x.args[0].id == mname_]
+                rems_ = [x for st in other_arm for x in ast.walk(st) if x in calls_on and x.func.attr in ("remove", "discard") and len(x.args) == 1]
+                writes_ = [x for x in calls_on if x.func.attr in ("add", "remove", "discard", "clear", "update", "pop", "difference_update", "intersection_update")]
+                inits_ = [d for d in fl.defs if d.var == cand and d.kind == "assign"]
+                empty_init = len(inits_) == 1 and isinstance(inits_[0].value, ast.Call) and isinstance(inits_[0].value.func, ast.Name) and \
+                    inits_[0].value.func.id == "set" and not inits_[0].value.args and not enclosing_loops(fi, inits_[0].node)
+                if adds_ and rems_ and len(writes_) == len(adds_) + len(rems_) and empty_init:
+                    good = True
         (obs.append(ob_ok("PROV.ring-marker", fi, alloc, construct="marker = f(markers in use = %s.values())" % sorted(marker_maps)[0], instance="allocation",
                           reason="a marker that is still open is never handed out again")) if good else
          obs.append(ob_fail("PROV.ring-marker", fi, alloc, construct="marker = %s" % src, instance="allocation",
@@ -764,7 +797,7 @@ def emit_write_graph(repo, tier="quick"):
         close_arm = NEW_farm if new_is_true_arm else NEW_tarm
         frees = any(isinstance(x, ast.Call) and isinstance(x.func, ast.Attribute) and x.func.attr == "pop" and isinstance(x.func.value, ast.Name)
                     and x.func.value.id in marker_maps for st in close_arm for x in ast.walk(st)) or \
-            any(isinstance(x, ast.Delete) for st in close_arm for x in ast.walk(st))
+            any(isinstance(x, ast.Delete) for st in close_arm for x in ast.walk(st)) or (none_form and none_src_is_pop)
         (obs.append(ob_ok("PROV.ring-marker", fi, NEW_test, construct="closing a ring removes its entry from the marker map", instance="release",
                           reason="markers are reused only after their ring was closed")) if frees else
          obs.append(ob_fail("PROV.ring-marker", fi, NEW_test, construct="closing arm keeps the marker entry", instance="release",
